@@ -162,6 +162,7 @@ static void check_wait_result (const char *api, int res, struct op *o, nsync_not
 /* Digest of the note forest (plain fields protected by the notes' mutexes), logged after every note
    API return: fibers switch only at atomic operations, so the snapshot is a consistent memory state
    that the Note model must reproduce exactly. */
+static int cv_wakes[MAXOBJ], cv_done[MAXOBJ]; /* signal / broadcast calls started / finished on each cv */
 static int born_notified[MAXOBJ];  /* the note was already notified when it was created (own deadline past, or parent notified/born notified) */
 static int64_t exp_min[MAXOBJ];   /* min of the deadlines from the note to its root, as given at creation */
 static int nnotes_seen;
@@ -225,8 +226,8 @@ static void run_prog (void *arg) {
 				if (o->code == OP_CVWAIT) { break; }
 			}
 			break; }
-		case OP_SIGNAL: vf_log ("call nsync_cv_signal cv%d", o->a); vf_api_enter (); nsync_cv_signal (&cvs[o->a]); vf_api_leave (); vf_log ("ret nsync_cv_signal -"); break;
-		case OP_BROADCAST: vf_log ("call nsync_cv_broadcast cv%d", o->a); vf_api_enter (); nsync_cv_broadcast (&cvs[o->a]); vf_api_leave (); vf_log ("ret nsync_cv_broadcast -"); break;
+		case OP_SIGNAL: cv_wakes[o->a]++; vf_log ("call nsync_cv_signal cv%d", o->a); vf_api_enter (); nsync_cv_signal (&cvs[o->a]); vf_api_leave (); cv_done[o->a]++; vf_log ("ret nsync_cv_signal -"); break;
+		case OP_BROADCAST: cv_wakes[o->a]++; vf_log ("call nsync_cv_broadcast cv%d", o->a); vf_api_enter (); nsync_cv_broadcast (&cvs[o->a]); vf_api_leave (); cv_done[o->a]++; vf_log ("ret nsync_cv_broadcast -"); break;
 		case OP_MUWAIT: {
 			int res; nsync_time t = mk_deadline (o, dt, sizeof (dt)); struct cond_arg *c = o->b >= 0 ? &conds[o->b] : NULL;
 			nsync_note cn = o->e >= 0 ? notes[o->e] : NULL;
@@ -289,7 +290,10 @@ static void run_prog (void *arg) {
 		case OP_WAITN: {
 			int k; int r; nsync_time t = mk_deadline (o, dt, sizeof (dt)); char desc[160]; int dn = 0;
 			int wmode = o->a >= 0 ? (api_w[o->a] != 0) : 0;
+			int wakes0[8]; int ready0 = -1; /* cv wake-up calls finished so far; first object already ready now */
 			for (k = 0; k != o->nobj; k++) {
+				wakes0[k & 7] = o->objk[k] == 0 ? cv_done[o->obji[k]] : 0;
+				if (ready0 < 0 && ((o->objk[k] == 1 && note_flag (notes[o->obji[k]])) || (o->objk[k] == 2 && vf_counter_peek (ctrs[o->obji[k]]) == 0))) { ready0 = k; }
 				switch (o->objk[k]) {
 				case 0: wtab[me][k].v = &cvs[o->obji[k]]; wtab[me][k].funcs = &nsync_cv_waitable_funcs; dn += snprintf (desc + dn, sizeof (desc) - dn, " cv%d", o->obji[k]); break;
 				case 1: wtab[me][k].v = notes[o->obji[k]]; wtab[me][k].funcs = &nsync_note_waitable_funcs; dn += snprintf (desc + dn, sizeof (desc) - dn, " %s", vf_name_of (notes[o->obji[k]])); break;
@@ -309,7 +313,9 @@ static void run_prog (void *arg) {
 			if (r == o->nobj && dl_ns (o) > vf_now ()) { vf_violation ("early-timeout", "nsync_wait_n returned count before its deadline"); }
 			if (r < o->nobj) {
 				if (o->objk[r] == 1 && !note_flag (notes[o->obji[r]])) { vf_violation ("waitn-ready", "nsync_wait_n reported an un-notified note as ready"); }
-			}
+				if (o->objk[r] == 2 && vf_counter_peek (ctrs[o->obji[r]]) != 0) { vf_violation ("waitn-ready", "nsync_wait_n reported a non-zero counter as ready"); }
+				if (o->objk[r] == 0 && cv_wakes[o->obji[r]] == wakes0[r & 7]) { vf_violation ("waitn-ready", "nsync_wait_n reported a condition variable as ready although every signal / broadcast on it so far had returned before the call began"); }
+			} else if (ready0 >= 0) { vf_violation ("waitn-missed", "nsync_wait_n returned count although object %d was ready when the call began", ready0); }
 			break; }
 		case OP_DBG_MU: case OP_DBG_MUW: case OP_DBG_CV: case OP_DBG_CVW: {
 			static char areas[16][64 + 256 + 64]; char *area = areas[me]; char *buf = area + 64; /* one buffer per fiber: the calls interleave */ int n = o->b; int k; int bad = 0; const char *api;
